@@ -93,6 +93,8 @@ VK_MAIN()
                 for (int k = 0; k < 3; k++) if (k < NL[s]) {
 #ifdef VK_SYM_NAMES
                         unsigned char ch = vin.b[vb++]; VK_ASSUME(name_char_ok(ch));
+#elif defined(VK_PREFIX_NAMES)
+                        unsigned char ch = (unsigned char)("ABC"[k]);   /* every shorter name is a proper prefix of every longer one */
 #else
                         unsigned char ch = (unsigned char)("_aQ.7||-Z"[3 * s + k]);   /* name characters concrete, lengths enumerated */
 #endif
